@@ -225,9 +225,21 @@ TStep ==
        /\ IF e.op = "step" /\ e.from = "prelock" /\ e.to = "presend"
             THEN /\ cnt' = cnt + 1
                  /\ pend' = [g \in DOMAIN pend \cup {e.g} |-> IF g = e.g THEN cnt + 1 ELSE pend[g]]
-            ELSE UNCHANGED <<cnt, pend>>
-       /\ LET csOf == IF e.op = "step" /\ e.g \in DOMAIN pend THEN pend[e.g] ELSE 0 IN
-          outs' = outs \o [i \in 1..Len(e.out) |-> e.out[i] @@ [cs |-> csOf]]
+            ELSE IF e.op = "step" /\ e.from = "presend"
+                   THEN /\ cnt' = cnt /\ pend' = [g \in DOMAIN pend \ {e.g} |-> pend[g]]       \* the stamped pack has been handed over
+                   ELSE UNCHANGED <<cnt, pend>>
+       \* compute sequence number of an emitted pack: the number its goroutine got when it stamped the pack under the
+       \* channel lock; packs that are stamped and handed over inside one unscheduled event (run, drain) get fresh numbers in
+       \* arrival order, except the first pack of a stream that was already stamped and waiting at "presend"
+       /\ LET KeyOf(pk) == IF KnownColl(pk.coll) /\ pk.pch \in DOMAIN CollOfPack(pk).bypch
+                              THEN LET st == StreamOfPack(pk) IN
+                                   IF st \in DOMAIN pend THEN st ELSE IF ("fwd:" \o st) \in DOMAIN pend THEN "fwd:" \o st ELSE ""
+                              ELSE ""
+              First(i) == \A j \in 1..(i-1) : KeyOf(e.out[j]) # KeyOf(e.out[i])
+              csOf(i) == IF e.op = "step" /\ e.g \in DOMAIN pend THEN pend[e.g]
+                         ELSE IF KeyOf(e.out[i]) # "" /\ First(i) THEN pend[KeyOf(e.out[i])]
+                         ELSE cnt + 1000 * l + i IN
+          outs' = outs \o [i \in 1..Len(e.out) |-> e.out[i] @@ [cs |-> csOf(i)]]
        /\ evs' = evs \o [i \in 1..Len(e.evs) |-> e.evs[i] @@ [at |-> Len(outs), nreads |-> Len(reads), step |-> l]]
        /\ stops' = IF e.op = "stop" THEN Append(stops, [c |-> e.c, step |-> l]) ELSE stops
        /\ addparts' = IF e.op = "addpart" /\ ~e.err THEN Append(addparts, [c |-> e.c, p |-> e.p, registered |-> e.registered]) ELSE addparts
